@@ -70,9 +70,27 @@ def track(E, arr, want_sum=False):
             E.axiom(z3.Implies(z3.And(i >= 0, i < n), sumIF(new, n) == sumIF(old, n) - old[i] + val))
             E.used_lemmas.add("sum_store")
         basics(new)
+
+    def name_operands(bi, val):
+        out = []
+        for t in list(bi) + [val]:
+            if z3.is_const(t):
+                out.append(t)
+            else:
+                c = z3.Int(fresh_name("st"))
+                E.assume(c == t)
+                out.append(c)
+        return out[:-1], out[-1]
+    on_store.name_operands = name_operands
     cell.on_store = on_store
 
-    def on_fill(val, new):
+    def on_fill(val, cell):
+        val = z(val)
+        if not z3.is_const(val):
+            c = z3.Int(fresh_name("fv"))
+            E.assume(c == val)
+            val = c
+        cell.term = new = z3.K(z3.IntSort(), val)          # same array as the lambda of the fill, lambda-free (lemma patterns)
         q = z3.Int(fresh_name("cq"))
         E.axiom(z3.ForAll([q], cntF(new, q, n) == z3.If(q == val, z3.If(n >= 0, n, 0), 0), patterns=[cntF(new, q, n)]))
         E.used_lemmas.add("cnt_const")
